@@ -242,3 +242,9 @@ _also("C20", rule="responder-side pairs (received pull channel with a UseStore/M
 
 # C01's thorough tier has ~300 real-graphsync cells; a smaller per-cell deadline keeps the whole check under an hour
 CHECKS["C01"]["cell_budget_s"] = {"thorough": 150}
+CHECKS["C10"]["packages"] = ["l2node", "l2transport", "schedh"]
+_also("C10", technique="deviation-bounded scheduler enumeration of restart pairs at lock granularity", rule="scheduler cells: a restart racing with every other operation of the initiator-side alphabet (incl. a second restart), <=1 (thorough 2) preemptions: at most one outgoing graphsync request of the channel is live afterwards.")
+CHECKS["C05"]["packages"] = ["l2node", "schedh"]
+CHECKS["C04"]["packages"] = ["l2node", "schedh"]
+_also("C05", technique="deviation-bounded scheduler enumeration (restart request vs channel ending) at lock + validator-call granularity", rule="scheduler cells: a restart request for a live received channel racing with the peer's cancel, a local close or a rejecting validation update (the application's validator is a scheduling point), <=1 (thorough 2) preemptions: if the channel ends terminal the transport channel is not re-opened after its close and the connection is not left protected.")
+_also("C04", rule="the restart-request-vs-ending scheduler cells of C05 also decide C04's 'a rejected channel stays failed with its transport closed'.")
